@@ -687,6 +687,12 @@ class Oracle:
         if not D.value_ok(v): return None
       if any(holds_target(v) for v in D.op_values(op)):
         self.stat('skipped:argument-contains-the-target'); return None
+      def in_target_tree(v):
+        if v[0] == 2: return in_target_tree(v[1])
+        return v[0] == 1 and v[1] == op[1][0]
+      if len(D.op_values(op)) >= 2 and any(in_target_tree(v) for v in D.op_values(op)):
+        # a batch whose earlier writes may change what a later argument refers to (Python stores aliases, pg copies at write time)
+        self.stat('skipped:batch-argument-in-the-target-tree'); return None
       vals = [plain_value(impl, v) for v in D.op_values(op)]
     except (Skip, D.NotApplicable):
       self.stat('skipped:argument'); return None
@@ -702,7 +708,18 @@ class Oracle:
 
   def __call__(self, impl, n, scope, op, res, info, before):
     P = D.pg()
-    if before is None or self.failed:
+    if self.failed:
+      return
+    if op[0] in EXT_NAMES and res != [1, D.ERR_NA]:
+      # the operations this property adds to the catalogue must keep the tree integrity C01 checks for the base catalogue
+      from harness.props import c01
+      bad = guarded(lambda: c01.check_forest(impl), on_error=lambda e: [('crash', 'the integrity walk raises %s' % type(e).__name__)])
+      self.stat('integrity-checked')
+      if bad:
+        self.failed = True
+        self.hits.append(('C02/integrity/%s/%s' % (op_name(op[0]), bad[0][0]), 'after %s: %s' % (op_name(op[0]), bad[0][1]), n))
+        return
+    if before is None:
       return
     if res == [1, D.ERR_NA]:
       return
